@@ -33,6 +33,17 @@ CHECKS = {
              'schedules, bugs=saio, by number, by time and in live mode 54 years after the epoch, and TLC evaluates well-formedness, pointer, '
              'sample-size, senc-count and payload-identity clauses on the independent projection of every response.',
         note='Trusted: TLC, the independent ISO-BMFF walker and stored-file scan, the PlayReady object reader. Stored segment kinds are those of the fixture media; other layouts (no tfdt, explicit base offset, 16-byte IV) are covered at design level only.', design='4 C03'),
+    'C04': dict(
+        technique='TLA+ spec BoxTree.tla (recursive size nesting; edit machine): TLC on edit sequences; every fixture tree parsed eagerly / lazily / '
+                  'read-only and re-encoded, JSON round trips, seeded edit sequences and boundary values; results walked independently and judged by TLC',
+        text='TLC checks that after every edit sequence (width-changing field assignment, append, insert, remove; depth 4) the encoded tree nests '
+             'exactly; all fixture files (as whole trees and as per-fragment windows) are parsed in three modes and re-encoded byte for byte, '
+             'eager and lazy field values and JSON round trips are compared, real trees are edited through the public API and the encoded '
+             'result is walked by the independent reader whose tree TLC checks recursively (sizes nest, top level tiles the buffer), and '
+             'boundary values of mfhd, tfdt, emsg and pssh are round-tripped.',
+        note='Trusted: TLC, the independent walker. This property is the least natural for TLA+: the spec decides structure and sizes; byte '
+             'equality is computed by the harness. Box classes without a fixture are listed in the evidence (box_classes_not_in_fixtures).',
+        design='4 C04'),
     'C05': dict(
         technique='TLA+ spec MpdRules.tla (structural MPD rules over a projected tree): rules checked by TLC against a catalogue of broken '
                   'trees (vacuity) and on the projection of every real manifest / patch; hostile-string skeleton comparison',
